@@ -68,15 +68,20 @@ Definition integer_part_ok (ds : bytes) : bool :=
 
 (** Int or Float token: IntegerPart [. Digit+] [(e|E) [+|-] Digit+] *)
 Definition lex_number (bs : bytes) : option (lit * bytes) :=
-  let '(neg, bs1) := match bs with 45 :: r => (true, r) | _ => (false, bs) end in
+  let '(neg, bs1) := match bs with
+                     | b :: r => if b =? 45 then (true, r) else (false, bs)
+                     | [] => (false, bs)
+                     end in
   let '(ip, r1) := take_while is_digit bs1 in
   if negb (integer_part_ok ip) then None else
   let sign (z : Z) : Z := if neg then Z.opp z else z in
   (* fractional part *)
   let frac := match r1 with
-              | 46 :: r => let '(fp, r2) := take_while is_digit r in
-                           match fp with [] => None | _ => Some (Some fp, r2) end
-              | _ => Some (None, r1)
+              | b :: r => if b =? 46 then
+                            let '(fp, r2) := take_while is_digit r in
+                            match fp with [] => None | _ => Some (Some fp, r2) end
+                          else Some (None, r1)
+              | [] => Some (None, r1)
               end in
   match frac with
   | None => None
@@ -84,7 +89,10 @@ Definition lex_number (bs : bytes) : option (lit * bytes) :=
       let expo := match r2 with
                   | c :: r =>
                       if (c =? 101) || (c =? 69) then
-                        let '(eneg, r') := match r with 45 :: r' => (true, r') | 43 :: r' => (false, r') | _ => (false, r) end in
+                        let '(eneg, r') := match r with
+                                           | s :: r' => if s =? 45 then (true, r') else if s =? 43 then (false, r') else (false, r)
+                                           | [] => (false, r)
+                                           end in
                         let '(ed, r3) := take_while is_digit r' in
                         match ed with
                         | [] => None
@@ -191,7 +199,9 @@ Fixpoint pvalue (fuel : nat) (bs : bytes) : option (lit * bytes) :=
             match pobject f r with Some (fs, t) => Some (LObject fs, t) | None => None end
           else if b =? 34 then                            (* string; block strings are not accepted *)
             match r with
-            | 34 :: 34 :: _ => None
+            | q1 :: q2 :: _ =>
+                if (q1 =? 34) && (q2 =? 34) then None
+                else match lex_string_body r with Some (s, t) => Some (LString s, t) | None => None end
             | _ => match lex_string_body r with Some (s, t) => Some (LString s, t) | None => None end
             end
           else if is_name_start b then
@@ -229,12 +239,14 @@ with pobject (fuel : nat) (bs : bytes) : option (list (name * lit) * bytes) :=
           else if is_name_start b then
             let '(nm, t) := take_while is_name_char (b :: r) in
             match skip_ignored t with
-            | 58 :: t1 =>
-                match pvalue f t1 with
-                | Some (v, t2) => match pobject f t2 with Some (fs, t3) => Some ((nm, v) :: fs, t3) | None => None end
-                | None => None
-                end
-            | _ => None
+            | c :: t1 =>
+                if c =? 58 then
+                  match pvalue f t1 with
+                  | Some (v, t2) => match pobject f t2 with Some (fs, t3) => Some ((nm, v) :: fs, t3) | None => None end
+                  | None => None
+                  end
+                else None
+            | [] => None
             end
           else None
       end
@@ -242,7 +254,7 @@ with pobject (fuel : nat) (bs : bytes) : option (list (name * lit) * bytes) :=
 
 (** the whole text is one value *)
 Definition parse_literal (text : bytes) : option lit :=
-  match pvalue (S (List.length text)) text with
+  match pvalue (S (2 * List.length text)) text with
   | Some (v, rest) => match skip_ignored rest with [] => Some v | _ => None end
   | None => None
   end.
